@@ -1,5 +1,209 @@
 import FGVerif.Driver.Shared
-/-! driver operations for C14 (stub: replaced by the property's own driver) -/
+import FGVerif.Model.C14
+import FGVerif.Generated.C14
+/-! driver operations for C14 (and helpers shared with the C15 driver) -/
 namespace C14
-def handle : List SExp → Option SExp := fun _ => none
+open SExp C13
+
+/-! ### wire: configurations -/
+
+def asPGraph : SExp → Option PGraph
+  | .list [g, a] => do pure { pattern := ← asGraph g, anchors := ← asList asNat a }
+  | _ => none
+
+def asGroup : SExp → Option Group
+  | .list [k, n, gs] => do pure { key := ← asStr k, name := ← asStr n, graphs := ← asList asPGraph gs }
+  | _ => none
+
+def asConfig : SExp → Option Config := asList asGroup
+
+def ofErr : Err → SExp
+  | .runtime => .list [.atom "raised", .atom "RuntimeError"]
+  | .value => .list [.atom "raised", .atom "ValueError"]
+  | .fuel => .list [.atom "raised", .atom "Fuel"]
+
+/-! ### canonical (order-insensitive) view of a graph: nodes in order, sorted edges without keys -/
+
+def labelKey : Label → List Int
+  | .s o => [0, o, 0]
+  | .p g h => [1, g, h]
+  | .nil => [2, 0, 0]
+
+def lexLe : List Int → List Int → Bool
+  | [], _ => true
+  | _ :: _, [] => false
+  | a :: as, b :: bs => a < b || (a == b && lexLe as bs)
+
+def canonEdges (g : Graph) : List (List Int) :=
+  (g.edges.map fun e => [min e.1 e.2.1, max e.1 e.2.1] ++ labelKey e.2.2.2).mergeSort lexLe
+
+def canonGraph (g : Graph) : SExp :=
+  .list [ofList ofNode g.nodes, ofList (ofList ofInt) (canonEdges g)]
+
+def sortByRender (l : List SExp) : List SExp :=
+  ((l.map fun s => (toString s, s)).mergeSort fun a b => a.1 ≤ b.1).map (·.2)
+
+/-- canonical form as sent by the harness: `((node…) ((min max tag a b)…))` -/
+structure Canon where
+  nodes : List (Int × NodeAttr)
+  edges : List (List Int)
+
+def asCanon : SExp → Option Canon
+  | .list [ns, es] => do pure { nodes := ← asList asNode ns, edges := ← asList (asList asInt) es }
+  | _ => none
+
+/-! ### fingerprints of canonical renderings (compared with zlib.adler32 / zlib.crc32 in Python) -/
+
+def adler32 (bs : ByteArray) : UInt32 :=
+  let (a, b) := bs.foldl (fun (ab : UInt32 × UInt32) x =>
+    let a := (ab.1 + x.toUInt32) % 65521
+    (a, (ab.2 + a) % 65521)) ((1 : UInt32), (0 : UInt32))
+  (b <<< 16) ||| a
+
+def crcTable : Array UInt32 :=
+  (Array.range 256).map fun n =>
+    (List.range 8).foldl (fun (c : UInt32) _ => if c &&& 1 == 1 then (c >>> 1) ^^^ 0xEDB88320 else c >>> 1) n.toUInt32
+
+def crc32 (bs : ByteArray) : UInt32 :=
+  (bs.foldl (fun (c : UInt32) x => crcTable[((c ^^^ x.toUInt32) &&& 0xFF).toNat]! ^^^ (c >>> 8)) 0xFFFFFFFF) ^^^ 0xFFFFFFFF
+
+def fingerprint (s : SExp) : SExp :=
+  let bs := (toString s).toUTF8
+  .list [ofNat bs.size, ofNat (adler32 bs).toNat, ofNat (crc32 bs).toNat]
+
+/-! ### executable specification on (canonical) results -/
+
+def contiguousIds (ids : List Int) : Bool := ids == (List.range ids.length).map Int.ofNat
+
+def sigOfCanon (c : Canon) : List String × List (List Int) :=
+  ((c.nodes.map fun p => p.2.symbol.getD "").mergeSort (· ≤ ·), (c.edges.map fun e => e.drop 2).mergeSort lexLe)
+
+def sigLe (a b : List String × List (List Int)) : Bool := toString a ≤ toString b
+
+/-- expected signature of a traced model result: chosen patterns' symbols minus one "#" per replaced
+    node, chosen patterns' bond labels minus the dropped ones -/
+def removeOne {α} [BEq α] (x : α) : List α → List α
+  | [] => []
+  | y :: ys => if y == x then ys else y :: removeOne x ys
+
+def sigOfTrace (t : Trace) : List String × List (List Int) :=
+  let syms := (List.replicate t.replaced "#").foldl (fun acc x => removeOne x acc) t.symbols
+  let bonds := t.dropped.foldl (fun acc x => removeOne x acc) t.bonds
+  (syms.mergeSort (· ≤ ·), (bonds.map labelKey).mergeSort lexLe)
+
+def fuelMax : Nat := 100000
+
+/-- spec of `build_graphs` on a list of canonical results -/
+def specBuild (cfg : Config) (core : Graph) (out : List Canon) : Bool :=
+  out.length == numExp cfg core &&
+  out.all (fun c => (c.nodes.find? fun p => isGroupNode cfg p.2).isNone && contiguousIds (c.nodes.map (·.1))) &&
+  (match buildGraphsT cfg fuelMax core with
+   | .ok ts => ((out.map sigOfCanon).mergeSort sigLe) == ((ts.map fun gt => sigOfTrace gt.2).mergeSort sigLe)
+   | .error _ => false)
+
+def canonOfGraph (g : Graph) : Canon := { nodes := g.nodes, edges := canonEdges g }
+
+def refTable (t : List (String × String × List (String × List Nat × List (List String)))) : RefConfig :=
+  t.map fun g => (g.1, g.2.2.map (·.2.2))
+
+def whichTable : String → Option (List (String × String × List (String × List Nat × List (List String))) ×
+    List (String × List Nat × List (List String)))
+  | "da_pos" => some (Gen.C14.daPos, Gen.C14.daPosCores)
+  | "da_neg" => some (Gen.C14.daNeg, Gen.C14.daNegCores)
+  | "common" => some (Gen.C14.common, [])
+  | _ => none
+
+def handle : List SExp → Option SExp
+  -- one step, exact graphs
+  | .atom "next" :: cfg :: g :: _rest => do
+      let cfg ← asConfig cfg
+      let g ← asGraph g
+      let out := match replaceNextNode cfg g with
+        | .ok none => none'
+        | .ok (some gs) => ofList ofGraph gs
+        | .error e => ofErr e
+      pure (.list [.atom "ok", out, ofBool true, none'])
+  -- build_graphs: sorted canonical results + spec on the implementation's list
+  | .atom "build" :: cfg :: core :: rest => do
+      let cfg ← asConfig cfg
+      let core ← asGraph core
+      let res := buildGraphs cfg fuelMax core
+      let model := match res with
+        | .ok gs => .list (sortByRender (gs.map canonGraph))
+        | .error e => ofErr e
+      let specModel := match res with
+        | .ok gs => specBuild cfg core (gs.map canonOfGraph) &&
+            (match buildGraphsT cfg fuelMax core with
+             | .ok ts => ts.all conservedB && ts.map (·.1.nodes) == gs.map (·.nodes)
+             | .error _ => false)
+        | .error _ => true
+      let specImpl ← match rest with
+        | [.list [.atom "raised", .atom k]] => pure (ofBool (match res with
+            | .error e => toString (ofErr e) == toString (SExp.list [.atom "raised", .atom k])
+            | .ok _ => false))
+        | [impl] => do
+            let out ← asList asCanon impl
+            pure (ofBool (match res with | .ok _ => specBuild cfg core out | .error _ => false))
+        | _ => pure none'
+      pure (.list [.atom "ok", model, ofBool specModel, specImpl, ofNat (numExp cfg core),
+                   ofBool (acyclicB (toRef cfg)), ofBool (cfgOk cfg), ofBool (hypothesesOk cfg core)])
+  -- iter(Proxy): sorted canonical finished graphs
+  | .atom "generate" :: cfg :: cores :: aam :: rest => do
+      let cfg ← asConfig cfg
+      let cores ← asList asGraph cores
+      let aam ← asBool aam
+      let res := generate cfg fuelMax aam cores
+      let model := match res with
+        | .ok gs => .list (sortByRender (gs.map canonGraph))
+        | .error e => ofErr e
+      let okOne := fun (c : Canon) =>
+        (c.nodes.find? fun p => isGroupNode cfg p.2).isNone && contiguousIds (c.nodes.map (·.1)) &&
+        (!aam || c.nodes.all fun p => p.2.aam == some (p.1 + 1))
+      let specImpl ← match rest with
+        | [.list [.atom "raised", .atom k]] => pure (ofBool (match res with
+            | .error e => toString (ofErr e) == toString (SExp.list [.atom "raised", .atom k])
+            | .ok _ => false))
+        | [impl] => do
+            let out ← asList asCanon impl
+            pure (ofBool (match res with
+              | .ok _ => out.length == totalExp cfg cores && out.all okOne
+              | .error _ => false))
+        | _ => pure none'
+      pure (.list [.atom "ok", model, ofBool true, specImpl, ofNat (totalExp cfg cores)])
+  -- the generated table of a shipped collection against the configuration the harness extracted
+  | .atom "table" :: .atom which :: cfg :: cores :: _ => do
+      let cfg ← asConfig cfg
+      let cores ← asList asGraph cores
+      let (t, tc) ← whichTable which
+      let refsOk := toRef cfg == refTable t && cfg.map (·.name) == t.map (·.2.1) &&
+        cfg.map (fun g => g.graphs.map (·.anchors)) == t.map (fun g => g.2.2.map (·.2.1)) &&
+        cores.map (refsOf cfg) == tc.map (·.2.2)
+      pure (.list [.atom "ok", ofBool refsOk, ofBool true, none',
+                   ofNat (totalExpRef (refTable t) (tc.map (·.2.2))), ofNat (totalExp cfg cores),
+                   ofBool (acyclicB (refTable t)), ofBool (cfgOk cfg)])
+  -- whole enumeration as fingerprints (in order), with the model-side spec flags
+  | .atom "enum_fp" :: cfg :: cores :: aam :: _ => do
+      let cfg ← asConfig cfg
+      let cores ← asList asGraph cores
+      let aam ← asBool aam
+      match generate cfg fuelMax aam cores with
+      | .error e => pure (.list [.atom "ok", ofErr e, ofBool true, none'])
+      | .ok gs =>
+        let conserved := cores.all fun core =>
+          match buildGraphsT cfg fuelMax core with
+          | .ok ts => ts.all conservedB
+          | .error _ => false
+        pure (.list [.atom "ok", ofList (fun g => fingerprint (canonGraph g)) gs, ofBool true, none',
+                     ofNat gs.length, ofBool conserved])
+  -- per-result checks on implementation outputs (canonical forms), thorough tier
+  | .atom "check_results" :: cfg :: aam :: outs :: _ => do
+      let cfg ← asConfig cfg
+      let aam ← asBool aam
+      let outs ← asList asCanon outs
+      let okOne := fun (c : Canon) =>
+        (c.nodes.find? fun p => isGroupNode cfg p.2).isNone && contiguousIds (c.nodes.map (·.1)) &&
+        (!aam || c.nodes.all fun p => p.2.aam == some (p.1 + 1))
+      pure (.list [.atom "ok", ofList (fun c => ofBool (okOne c)) outs, ofBool true, ofBool (outs.all okOne)])
+  | _ => none
+
 end C14
